@@ -154,6 +154,8 @@ impl<Key, Value> Store<Key, Value>
         let _verif_lock = crate::cache::verif::lock_scope("StoreShard");
         if let Some(mut existing_value) = self.store.get_mut(key) {
             let existing_expiry = existing_value.expire_after();
+            #[cfg(cached_verif)]
+            crate::cache::verif::point("store.update.mid");
             let new_expiry = existing_value.update(value, time_to_live, remove_time_to_live, &self.clock);
 
             let response = UpdateResponse(
